@@ -104,6 +104,11 @@ func c07Worker(w *core.WorkerCtx) {
 	for k := 0; k < n; k++ {
 		longScenario(w, []string{"C07"}, k, c07Opts(w, k))
 	}
+	if w.Batch == 2 || (w.Thorough() && w.Batch%3 == 2) {
+		// amounts near 2^63 moving through several wallets below the cut
+		rng := core.Rand(w.Seed, "C07whale", w.Batch)
+		longScenario(w, []string{"C07", "C05"}, 600, ledger.LongOpts{Nodes: 1, Size: 1020 + rng.Intn(60), Truncations: 1, PostOps: 30, Whale: true})
+	}
 	if w.Batch == 1 || (w.Thorough() && w.Batch%3 == 1) {
 		// a truncation cancelled in the middle of its persisting walk, then the next attempts
 		rng := core.Rand(w.Seed, "C07int", w.Batch)
